@@ -119,10 +119,12 @@ Qed.
 Lemma toS_shape s : invL gs gr s ->
   match do_to_s gs s with
   | Next s' => exists x t, qrs s = x :: t /\ cr s' = cr s /\ qrs s' = t /\ published s' = published s /\ delivered s' = delivered s /\
-      ((k_type x = T_PUBACK /\ qsr s' = qsr s /\ c_store (cs s') = store_erase_l V311 T_PUBACK (k_pid x) (c_store (cs s))) \/
+      ((k_type x = T_PUBACK /\ qsr s' = qsr s /\ c_store (cs s') = store_erase_l V311 T_PUBACK (k_pid x) (c_store (cs s)) /\
+        is_used (cs s') (k_pid x) = false) \/
        (k_type x = T_PUBREC /\ qsr s' = qsr s ++ [pubrel_of gs (k_pid x)] /\
         c_store (cs s') = store_erase_l V311 T_PUBREC (k_pid x) (c_store (cs s)) ++ [pubrel_of gs (k_pid x)]) \/
-       (k_type x = T_PUBCOMP /\ qsr s' = qsr s /\ c_store (cs s') = store_erase_l V311 T_PUBCOMP (k_pid x) (c_store (cs s))))
+       (k_type x = T_PUBCOMP /\ qsr s' = qsr s /\ c_store (cs s') = store_erase_l V311 T_PUBCOMP (k_pid x) (c_store (cs s)) /\
+        is_used (cs s') (k_pid x) = false))
   | _ => True
   end.
 Proof.
@@ -134,7 +136,7 @@ Proof.
   - assert (Hvx : k_ver x = V311) by (rewrite He; reflexivity). assert (Htp : k_type x = T_PUBACK) by (rewrite He; reflexivity).
     pose proof (sender_final_ack_x gs cs0 x T_PUBACK HO Rs Hvx Htp (or_introl eq_refl) Hm Hu) as H.
     pose proof (sender_final_store gs cs0 x T_PUBACK HO Rs Hns Hvx Htp (or_introl eq_refl) Hm Hu) as H''.
-    destruct (deliver gs cs0 x) as [[c2 e]|]; [|exact I]. destruct H as (L1 & S1 & X1 & _). destruct H'' as (T1 & _).
+    destruct (deliver gs cs0 x) as [[c2 e]|]; [|exact I]. destruct H as (L1 & S1 & X1 & _ & _ & _ & U2f & _). destruct H'' as (T1 & _).
     rewrite X1, S1, L1, N.eqb_refl. cbn [none negb]. exists x, t. cbn [cs cr qsr qrs published delivered].
     do 5 (split; [reflexivity|]). left. repeat split; assumption || reflexivity.
   - assert (Hvx : k_ver x = V311) by (rewrite He; reflexivity). assert (Htp : k_type x = T_PUBREC) by (rewrite He; reflexivity).
@@ -146,7 +148,7 @@ Proof.
   - assert (Hvx : k_ver x = V311) by (rewrite He; reflexivity). assert (Htp : k_type x = T_PUBCOMP) by (rewrite He; reflexivity).
     pose proof (sender_final_ack_x gs cs0 x T_PUBCOMP HO Rs Hvx Htp (or_intror eq_refl) Hm Hu) as H.
     pose proof (sender_final_store gs cs0 x T_PUBCOMP HO Rs Hns Hvx Htp (or_intror eq_refl) Hm Hu) as H''.
-    destruct (deliver gs cs0 x) as [[c2 e]|]; [|exact I]. destruct H as (L1 & S1 & X1 & _). destruct H'' as (T1 & _).
+    destruct (deliver gs cs0 x) as [[c2 e]|]; [|exact I]. destruct H as (L1 & S1 & X1 & _ & _ & _ & U2f & _). destruct H'' as (T1 & _).
     rewrite X1, S1, L1, N.eqb_refl. cbn [none negb]. exists x, t. cbn [cs cr qsr qrs published delivered].
     do 5 (split; [reflexivity|]). right. right. repeat split; assumption || reflexivity.
 Qed.
@@ -292,7 +294,7 @@ Proof.
   unfold accB. rewrite Ecr, Eq', Epub, Edel.
   assert (Hpr' : forall z, In z t -> k_type z = T_PUBREC -> mem (k_pid z) (c_qos2 (cr s)) = true) by (intros z Hz; apply Hpr; rewrite Eq; now right).
   split; [exact Hpr'|].
-  destruct Hcase as [(Htp & Es & Est)|[(Htp & Es & Est)|(Htp & Es & Est)]]; rewrite Es, Est.
+  destruct Hcase as [(Htp & Es & Est & _)|[(Htp & Es & Est)|(Htp & Es & Est & _)]]; rewrite Es, Est.
   - split; [exact Hacc|]. rewrite <- Hord. f_equal. unfold pend2. apply filter_erase_l. intros q _ _ Hr.
     unfold response_of in Hr. unfold q2, is_pub. destruct (k_type q =? T_PUBLISH); [|reflexivity]. destruct (k_qos q =? 1); [reflexivity|discriminate Hr].
   - assert (Hnp : q2 (pubrel_of gs (k_pid x)) = false) by reflexivity.
@@ -383,4 +385,214 @@ Qed.
 
 Lemma accB_init c1 c2 : c_qos2 c2 = [] -> c_store c1 = [] -> accB (mkSys c1 c2 [] [] [] []).
 Proof. intros Q S. unfold accB. cbn [cs cr qsr qrs published delivered]. rewrite S. split; [intros x []|]. split; reflexivity. Qed.
+
+(* ---- QoS 1: at least once ---- *)
+Definition accC (s : sys) : Prop :=
+  (* every stored exchange has a packet in flight *)
+  (forall q, In q (c_store (cs s)) -> In (k_pid q) (ids (qsr s) ++ ids (qrs s))) /\
+  (* a PUBLISH in flight and the stored entry of its exchange are the same message *)
+  (forall x e, In x (qsr s) -> k_type x = T_PUBLISH -> In e (c_store (cs s)) -> k_pid e = k_pid x -> undup e = undup x) /\
+  (* a PUBACK in flight is for a message that has been notified *)
+  (forall x e, In x (qrs s) -> k_type x = T_PUBACK -> In e (c_store (cs s)) -> k_pid e = k_pid x -> In (undup e) (map undup (delivered s))) /\
+  (* every published QoS 1 message has been notified or is still stored *)
+  (forall p, In p (published s) -> k_type p = T_PUBLISH -> k_qos p = 1 ->
+             In (undup p) (map undup (delivered s)) \/ exists e, In e (c_store (cs s)) /\ undup e = undup p).
+
+Lemma in_ids_app_l x a b : In x (ids a) -> In x (ids a ++ ids b). Proof. intro H. apply in_or_app. now left. Qed.
+Lemma in_ids_app_r x a b : In x (ids b) -> In x (ids a ++ ids b). Proof. intro H. apply in_or_app. now right. Qed.
+Lemma undup_type a b : undup a = undup b -> k_type a = k_type b.
+Proof. intro H. change (k_type a) with (k_type (undup a)). rewrite H. reflexivity. Qed.
+Lemma undup_qos a b : undup a = undup b -> k_qos a = k_qos b.
+Proof. intro H. change (k_qos a) with (k_qos (undup a)). rewrite H. reflexivity. Qed.
+
+Lemma accC_toR s : invL gs gr s -> accC s -> match do_to_r gr s with Next s' => accC s' | _ => True end.
+Proof.
+  intros Hi (Hfl & Htw & Hpa & Hac). pose proof (toR_shape s Hi) as Hsh.
+  destruct (do_to_r gr s) as [s'| |]; [|exact I|exact I].
+  destruct Hsh as (x & t & Eq & Ecs & Eq' & Epub & Hcase).
+  assert (Hdel : exists d, delivered s' = delivered s ++ d /\ (k_type x = T_PUBLISH -> k_qos x = 1 -> d = [x])).
+  { destruct Hcase as [(Htp & Hqq & Ed & _)|[(Htp & Hq1 & Ed & _)|(Htp & Ed & _)]].
+    - exists [x]. split; [exact Ed|reflexivity].
+    - eexists. split; [exact Ed|]. intros _ Hq. rewrite Hq in Hq1. discriminate.
+    - exists []. split; [now rewrite app_nil_r|]. intro Hc. rewrite Htp in Hc. discriminate. }
+  destruct Hdel as (d & Ed & Hd1).
+  assert (Hqr : exists a, qrs s' = qrs s ++ [a] /\ k_pid a = k_pid x /\ (k_type a = T_PUBACK -> k_type x = T_PUBLISH /\ k_qos x = 1)).
+  { destruct Hcase as [(Htp & Hqq & _ & Er & _)|[(Htp & Hq1 & _ & Er & _)|(Htp & _ & Er & _)]]; eexists; (split; [exact Er|]); (split; [reflexivity|]).
+    - intros _. split; assumption.
+    - intro Hc. discriminate Hc.
+    - intro Hc. discriminate Hc. }
+  destruct Hqr as (a & Er & Epa & Hta).
+  unfold accC. rewrite Ecs, Eq', Epub, Ed, Er. rewrite Eq in *.
+  split; [|split; [|split]].
+  - intros q Hq. specialize (Hfl q Hq). rewrite ids_app. cbn [ids map app] in Hfl |- *. rewrite Epa.
+    destruct Hfl as [Hfl|Hfl]; [apply in_or_app; right; apply in_or_app; right; left; exact Hfl|].
+    apply in_app_or in Hfl as [Hfl|Hfl]; apply in_or_app; [left; exact Hfl|right; apply in_or_app; left; exact Hfl].
+  - intros x' e Hx'. apply Htw. now right.
+  - intros x' e Hx' Hty He Hpe. rewrite map_app. apply in_or_app. apply in_app_or in Hx' as [Hx'|Hx'].
+    + left. exact (Hpa x' e Hx' Hty He Hpe).
+    + destruct Hx' as [<-|[]]. destruct (Hta Hty) as [Htx Hqx]. right. rewrite (Hd1 Htx Hqx). cbn [map]. left.
+      symmetry. apply (Htw x e); [now left|exact Htx|exact He|congruence].
+  - intros p Hp Htp Hqp. destruct (Hac p Hp Htp Hqp) as [H|H]; [left; rewrite map_app; apply in_or_app; now left|now right].
+Qed.
+
+(* the stored entry with a given identifier is unique, so its kind is the kind the sender awaits for that identifier *)
+Lemma stored_kind c e (r : N) id : OWN gs c -> SUP c -> c_need_store c = true -> In e (c_store c) -> k_pid e = id ->
+  mem id (kset r (c_puback c) (c_pubrec c) (c_pubcomp c)) = true -> (r = T_PUBACK \/ r = T_PUBREC \/ r = T_PUBCOMP) -> response_of e = r.
+Proof.
+  intros HO HS Hn He Hpe Hm Hr. destruct (HS Hn id) as (H1 & H2 & H3).
+  assert (Hh : hask r (c_store c) id = true).
+  { destruct Hr as [-> | [-> | ->]]; unfold kset in Hm.
+    - change (T_PUBACK =? T_PUBACK) with true in Hm. exact (H1 Hm).
+    - change (T_PUBREC =? T_PUBACK) with false in Hm. change (T_PUBREC =? T_PUBREC) with true in Hm. exact (H2 Hm).
+    - change (T_PUBCOMP =? T_PUBACK) with false in Hm. change (T_PUBCOMP =? T_PUBREC) with false in Hm. exact (H3 Hm). }
+  apply hask_In in Hh as (q & Hq & Epq & Erq). pose proof (o_nodup _ _ _ _ _ _ _ _ _ HO) as Hnd. unfold sids in Hnd.
+  assert (e = q) by (apply (nodup_pid_eq (c_store c)); [exact Hnd|exact He|exact Hq|congruence]). now subst q.
+Qed.
+
+Lemma accC_toS s : invL gs gr s -> accC s -> match do_to_s gs s with Next s' => accC s' | _ => True end.
+Proof.
+  intros Hi (Hfl & Htw & Hpa & Hac). pose proof (toS_shape s Hi) as Hsh. pose proof (toL_s_step gs gr idw_small s Hi) as Hst.
+  destruct (do_to_s gs s) as [s'| |]; [|exact I|exact I]. destruct Hst as [Hi' _].
+  destruct Hsh as (x & t & Eq & Ecr & Eq' & Epub & Edel & Hcase).
+  destruct Hi as (HK & Rs & Has & Hns & Hmp & Hfit & HKr & Rr & Har & Hnr & Hsr & Hasc & Fsr & Frs & Hnd & Hq & Hpc).
+  destruct HK as (HO & HS & HE & Hv).
+  rewrite Eq in *. pose proof (Forall_inv Frs) as Hfx.
+  assert (Hnx : ~ In (k_pid x) (ids (qsr s) ++ ids t)) by (cbn [ids map] in Hnd; apply NoDup_remove_2 in Hnd; exact Hnd).
+  destruct Hi' as ((HO' & _) & _).
+  unfold accC. rewrite Eq', Epub, Edel.
+  destruct Hcase as [(Htp & Es & Est & Huf)|[(Htp & Es & Est)|(Htp & Es & Est & Huf)]]; rewrite Es, Est.
+  - (* PUBACK *)
+    split; [|split; [|split]].
+    + intros q Hq'. assert (Hne : k_pid q <> k_pid x).
+      { intro E. rewrite <- Est in Hq'. pose proof (o_used _ _ _ _ _ _ _ _ _ HO' q Hq') as Hu. rewrite E in Hu. unfold is_used, pm_is_used in Huf. rewrite Hu in Huf. discriminate. }
+      apply erase_l_sub in Hq'. specialize (Hfl q Hq'). cbn [ids map] in Hfl. apply in_app_or in Hfl as [Hfl|Hfl]; [now apply in_ids_app_l|].
+      destruct Hfl as [Hfl|Hfl]; [congruence|now apply in_ids_app_r].
+    + intros x' e Hx' Hty He. apply erase_l_sub in He. now apply Htw.
+    + intros x' e Hx' Hty He Hpe. apply erase_l_sub in He. apply (Hpa x' e); [now right|exact Hty|exact He|exact Hpe].
+    + intros p Hp Htyp Hqp. destruct (Hac p Hp Htyp Hqp) as [H|(e & He & Eu)]; [now left|].
+      destruct (N.eq_dec (k_pid e) (k_pid x)) as [E|E].
+      * left. rewrite <- Eu. apply (Hpa x e); [now left|exact Htp|exact He|exact E].
+      * right. exists e. split; [apply erase_l_keep; [exact He|now left]|exact Eu].
+  - (* PUBREC *)
+    destruct Hfx as (Hux & [[He0 _]|[[_ Hmx]|[He0 _]]]); [rewrite He0 in Htp; discriminate Htp| |rewrite He0 in Htp; discriminate Htp].
+    split; [|split; [|split]].
+    + intros q Hq'. rewrite ids_app. cbn [ids map]. rewrite pubrel_pid. apply in_app_or in Hq' as [Hq'|Hq'].
+      * apply erase_l_sub in Hq'. specialize (Hfl q Hq'). cbn [ids map] in Hfl. apply in_app_or in Hfl as [Hfl|Hfl].
+        -- apply in_or_app. left. apply in_or_app. now left.
+        -- destruct Hfl as [Hfl|Hfl]; [apply in_or_app; left; apply in_or_app; right; left; exact Hfl|now apply in_or_app; right].
+      * destruct Hq' as [<-|[]]. rewrite pubrel_pid. apply in_or_app. left. apply in_or_app. right. now left.
+    + intros x' e Hx' Hty He Hpe. apply in_app_or in Hx' as [Hx'|Hx']; [|destruct Hx' as [<-|[]]; discriminate Hty].
+      apply in_app_or in He as [He|He]; [apply erase_l_sub in He; now apply Htw|].
+      destruct He as [<-|[]]. rewrite pubrel_pid in Hpe. exfalso. apply Hnx. apply in_or_app. left. rewrite Hpe. now apply in_ids.
+    + intros x' e Hx' Hty He Hpe. apply in_app_or in He as [He|He]; [apply erase_l_sub in He; apply (Hpa x' e); [now right|exact Hty|exact He|exact Hpe]|].
+      destruct He as [<-|[]]. rewrite pubrel_pid in Hpe. exfalso. apply Hnx. apply in_or_app. right. rewrite Hpe. now apply in_ids.
+    + intros p Hp Htyp Hqp. destruct (Hac p Hp Htyp Hqp) as [H|(e & He & Eu)]; [now left|]. right. exists e. split; [|exact Eu].
+      apply in_or_app. left. apply erase_l_keep; [exact He|]. left. intro E.
+      pose proof (stored_kind (cs s) e T_PUBREC (k_pid x) HO HS Hns He E) as Hk. unfold kset in Hk.
+      change (T_PUBREC =? T_PUBACK) with false in Hk. change (T_PUBREC =? T_PUBREC) with true in Hk. specialize (Hk Hmx (or_intror (or_introl eq_refl))).
+      unfold response_of in Hk. rewrite (undup_type e p Eu), Htyp, (undup_qos e p Eu), Hqp in Hk. discriminate Hk.
+  - (* PUBCOMP *)
+    destruct Hfx as (Hux & [[He0 _]|[[He0 _]|[_ Hmx]]]); [rewrite He0 in Htp; discriminate Htp|rewrite He0 in Htp; discriminate Htp|].
+    split; [|split; [|split]].
+    + intros q Hq'. assert (Hne : k_pid q <> k_pid x).
+      { intro E. rewrite <- Est in Hq'. pose proof (o_used _ _ _ _ _ _ _ _ _ HO' q Hq') as Hu. rewrite E in Hu. unfold is_used, pm_is_used in Huf. rewrite Hu in Huf. discriminate. }
+      apply erase_l_sub in Hq'. specialize (Hfl q Hq'). cbn [ids map] in Hfl. apply in_app_or in Hfl as [Hfl|Hfl]; [now apply in_ids_app_l|].
+      destruct Hfl as [Hfl|Hfl]; [congruence|now apply in_ids_app_r].
+    + intros x' e Hx' Hty He. apply erase_l_sub in He. now apply Htw.
+    + intros x' e Hx' Hty He Hpe. apply erase_l_sub in He. apply (Hpa x' e); [now right|exact Hty|exact He|exact Hpe].
+    + intros p Hp Htyp Hqp. destruct (Hac p Hp Htyp Hqp) as [H|(e & He & Eu)]; [now left|]. right. exists e. split; [|exact Eu].
+      apply erase_l_keep; [exact He|]. left. intro E.
+      pose proof (stored_kind (cs s) e T_PUBCOMP (k_pid x) HO HS Hns He E) as Hk. unfold kset in Hk.
+      change (T_PUBCOMP =? T_PUBACK) with false in Hk. change (T_PUBCOMP =? T_PUBREC) with false in Hk. specialize (Hk Hmx (or_intror (or_intror eq_refl))).
+      unfold response_of in Hk. rewrite (undup_type e p Eu), Htyp in Hk. change (T_PUBLISH =? T_PUBLISH) with true in Hk. destruct (k_qos e =? 1); discriminate Hk.
+Qed.
+
+Lemma accC_pub s p q : invL gs gr s -> accC s -> v311_pub p q -> q = 1 \/ q = 2 ->
+  match do_pub gs s p with Next s' => accC s' | _ => True end.
+Proof.
+  intros Hi (Hfl & Htw & Hpa & Hac) Hp Hqq. pose proof (pub_shape s p q Hi Hp Hqq) as Hsh.
+  destruct (do_pub gs s p) as [s'| |]; [|exact I|exact I].
+  destruct Hsh as (Ecr & Eqr & Edel & Epub & Eqs & Est & Hun).
+  destruct Hi as ((HO & _) & _ & _ & _ & _ & _ & _ & _ & _ & _ & _ & _ & Fsr & Frs & _).
+  assert (Hns : forall e, In e (c_store (cs s)) -> k_pid e <> k_pid p).
+  { intros e He E. pose proof (o_used _ _ _ _ _ _ _ _ _ HO e He) as Hu. rewrite E in Hu. unfold is_used, pm_is_used in Hun. rewrite Hu in Hun. discriminate. }
+  assert (Hnq : forall x', In x' (qsr s) -> k_pid x' <> k_pid p).
+  { intros x' Hx' E. rewrite (flightL_used (cs s) (qsr s) (k_pid p) Fsr) in Hun; [discriminate|]. rewrite <- E. now apply in_ids. }
+  assert (Hnr : forall x', In x' (qrs s) -> k_pid x' <> k_pid p).
+  { intros x' Hx' E. rewrite (flight_used_rs gr (cs s) (qrs s) (k_pid p) Frs) in Hun; [discriminate|]. rewrite <- E. now apply in_ids. }
+  unfold accC. rewrite Eqr, Edel, Epub, Eqs, Est.
+  split; [|split; [|split]].
+  - intros e He. rewrite ids_app. apply in_app_or in He as [He|He].
+    + specialize (Hfl e He). apply in_app_or in Hfl as [Hfl|Hfl]; [apply in_or_app; left; apply in_or_app; now left|now apply in_or_app; right].
+    + destruct He as [<-|[]]. apply in_or_app. left. apply in_or_app. right. now left.
+  - intros x' e Hx' Hty He Hpe. apply in_app_or in Hx' as [Hx'|Hx']; apply in_app_or in He as [He|He].
+    + now apply Htw.
+    + destruct He as [<-|[]]. exfalso. apply (Hnq x' Hx'). symmetry. exact Hpe.
+    + destruct Hx' as [<-|[]]. exfalso. exact (Hns e He Hpe).
+    + destruct Hx' as [<-|[]]. destruct He as [<-|[]]. reflexivity.
+  - intros x' e Hx' Hty He Hpe. apply in_app_or in He as [He|He]; [now apply (Hpa x' e)|].
+    destruct He as [<-|[]]. exfalso. apply (Hnr x' Hx'). symmetry. exact Hpe.
+  - intros p' Hp' Htyp Hqp. apply in_app_or in Hp' as [Hp'|Hp'].
+    + destruct (Hac p' Hp' Htyp Hqp) as [H|(e & He & Eu)]; [now left|]. right. exists e. split; [apply in_or_app; now left|exact Eu].
+    + destruct Hp' as [<-|[]]. right. exists (set_dup p true). split; [apply in_or_app; right; now left|reflexivity].
+Qed.
+
+Lemma accC_lose s : invL gs gr s -> accC s -> match do_lose gs gr s with Next s' => accC s' | _ => True end.
+Proof.
+  intros Hi (Hfl & Htw & Hpa & Hac). pose proof (lose_shape s Hi) as Hsh.
+  destruct (do_lose gs gr s) as [s'| |]; [|exact I|exact I].
+  destruct Hsh as (Epub & Edel & Eqr & Eqs & Est & EQ).
+  destruct Hi as ((HO & _) & _).
+  unfold accC. rewrite Epub, Edel, Eqr, Eqs, Est.
+  split; [|split; [|split]].
+  - intros e He. rewrite app_nil_r, ids_store_into. now apply in_map.
+  - intros x' e Hx' Hty He Hpe. apply in_map_iff in Hx' as (e' & <- & He').
+    destruct (k_type e' =? T_PUBLISH) eqn:Et; [|unfold store_into in Hty; rewrite Et in Hty; discriminate Hty].
+    rewrite (store_into_pub e' Et) in *. f_equal.
+    apply (nodup_pid_eq (c_store (cs s))); [exact (o_nodup _ _ _ _ _ _ _ _ _ HO)|exact He|exact He'|exact Hpe].
+  - intros x' e [].
+  - exact Hac.
+Qed.
+
+Lemma actC_ok s a : invL gs gr s -> accC s -> good_actL a -> match do_actL gs gr s a with Next s' => accC s' | _ => True end.
+Proof.
+  intros Hi Ha Hg. destruct a as [p| | |].
+  - change (do_actL gs gr s (PubL p)) with (do_pub gs s p). destruct Hg as [[Hg|Hg] _].
+    + exact (accC_pub s p 1 Hi Ha Hg (or_introl eq_refl)).
+    + exact (accC_pub s p 2 Hi Ha Hg (or_intror eq_refl)).
+  - exact (accC_toR s Hi Ha).
+  - exact (accC_toS s Hi Ha).
+  - exact (accC_lose s Hi Ha).
+Qed.
+
+Theorem schedC_ok : forall l s, invL gs gr s -> accC s -> Forall good_actL l ->
+  exists s', run_schedL gs gr s l = Some s' /\ invL gs gr s' /\ accC s'.
+Proof.
+  induction l as [|a t IH]; intros s Hi Ha Hf; cbn [run_schedL]; [exists s; split; [reflexivity|split; assumption]|].
+  inversion Hf as [|? ? Hga Ht]; subst.
+  pose proof (actL_ok gs gr gs_client gr_server idw_small s a Hi Hga) as H1. pose proof (actC_ok s a Hi Ha Hga) as H2.
+  destruct (do_actL gs gr s a) as [s'| |]; [exact (IH s' H1 H2 Ht)|exact (IH s Hi Ha Ht)|destruct H1].
+Qed.
+
+(* QoS 1, AT LEAST ONCE ACROSS TRANSPORT LOSS: once the links have drained, every QoS 1 message that was published has been
+   notified to the receiving application (possibly more than once, possibly with the DUP flag) and nothing is stored any more *)
+Theorem qos1_at_least_once_across_loss l s : invL gs gr s -> accC s -> Forall good_actL l ->
+  exists s1 s2, run_schedL gs gr s l = Some s1 /\ run_schedL gs gr s1 (drainL (measure s1)) = Some s2 /\
+                qsr s2 = [] /\ qrs s2 = [] /\ c_store (cs s2) = [] /\
+                (forall p, In p (published s1) -> k_type p = T_PUBLISH -> k_qos p = 1 -> In (undup p) (map undup (delivered s2))).
+Proof.
+  intros Hi Ha Hf. destruct (schedC_ok l s Hi Ha Hf) as (s1 & R1 & I1 & A1).
+  destruct (drainL_ok gs gr idw_small (measure s1) s1 I1 (le_n _)) as (s2 & R2 & I2 & Q1 & Q2 & P2).
+  destruct (schedC_ok (drainL (measure s1)) s1 I1 A1 (drain_good _)) as (s2' & R2' & _ & (Hfl & _ & _ & Hac)).
+  rewrite R2 in R2'. injection R2' as <-.
+  assert (Hst : c_store (cs s2) = []).
+  { destruct (c_store (cs s2)) as [|e t] eqn:E; [reflexivity|]. exfalso. specialize (Hfl e (or_introl eq_refl)). rewrite Q1, Q2 in Hfl. destruct Hfl. }
+  exists s1, s2. split; [exact R1|]. split; [exact R2|]. split; [exact Q1|]. split; [exact Q2|]. split; [exact Hst|].
+  intros p Hp Htp Hqp. rewrite <- P2 in Hp. destruct (Hac p Hp Htp Hqp) as [H|(e & He & _)]; [exact H|]. rewrite Hst in He. destruct He.
+Qed.
+
+Lemma accC_init c1 c2 : c_store c1 = [] -> accC (mkSys c1 c2 [] [] [] []).
+Proof.
+  intro S. unfold accC. cbn [cs cr qsr qrs published delivered]. rewrite S. split; [intros q []|]. split; [intros x e []|]. split; [intros x e []|intros p []].
+Qed.
 End Acc.
